@@ -204,8 +204,10 @@ def _cmp_key(target, sb):
     if target == "py":
         # distinct storage = distinct name space (local variable / attribute of self / of self._functions)
         return (storage, bare)
-    # Fortran: one pool, case-insensitive
-    return bare.lower()
+    # Fortran: case-insensitive; components of the state structure (dagrt_state%...) and plain identifiers
+    # (locals, functions, reserved names) are two name spaces: `dagrt_refcnt_p_y` (refcount of the local p_y) and
+    # `dagrt_state%dagrt_refcnt_p_Y` (refcount of <p>Y) are different identifiers also to a Fortran compiler
+    return (storage == "state", bare.lower())
 
 
 def _legal(target, op, storage, bare):
